@@ -58,6 +58,8 @@ def run(prop, tier, seed, replay=None):
     cases = enumerate_cases(2 if quick else 3)
     rng = random.Random(seed)
     items = [(c, m) for c in cases for m in pathcases.METHODS]
+    # XML bodies with an external entity that names a file outside the root (both front ends)
+    items += [({"segs": ["N1"], "lead": 1, "enc": "plain", "norm": ["LITERAL"]}, "XMLENT")] * 2
     if replay:
         r = json.load(open(replay))
         items = [({k: r["case"][k] for k in ("segs", "lead", "enc", "norm")}, r["case"]["method"])]
